@@ -265,6 +265,12 @@ class Gen:
                 self.atom("lit.string.escape")
                 k = r.randint(0, len(chars))
                 chars = chars[:k] + self.pick(["$$", "$N", "$T", "$0A", "$L", "$$$$"]) + chars[k:]
+            if self.ok("lit.string.escaped-quote") and self.chance(0.15):
+                # '$' takes the next character with it: an escaped quote does not end the string (first, last, in a row)
+                self.atom("lit.string.escaped-quote")
+                eq = '$"' if kind == "lit.wstring" else "$'"
+                k = r.randint(0, len(chars)) if "$" not in chars else self.pick([0, len(chars)])     # never inside an escape
+                chars = self.pick([chars[:k] + eq + chars[k:], eq + chars, chars + eq, eq + eq, chars[:k] + "$$" + eq + chars[k:]])
             if kind == "lit.wstring":
                 return [L('"%s"' % chars)], ["str", chars]
             if kind == "lit.string.typed":
